@@ -1371,6 +1371,9 @@ def model_unpack(I: Interp, args: list[V], kwargs: dict[str, V]) -> V:
         chunk = z3.SubSeq(data.t, z3.IntVal(off), z3.IntVal(w))
         if c == "s":
             out.append(VBytes(simp(chunk)))
+        elif w > EXPLICIT_WIDTH and not c.islower():
+            sl = getslice(I, data, VInt(off), VInt(off + w), None)
+            out.append(VInt(mk_fb(I, sl.t)))
         else:
             acc: Any = z3.IntVal(0)
             for i in range(w):
